@@ -2,7 +2,7 @@
 from common import *
 import scripts
 
-THEOREMS = ['source_independence', 'Bcder.Props.C07b.ossPol_conforming', 'Bcder.Props.C07b.request_exact', 'Bcder.Props.C07b.request_sim', 'Bcder.Props.C07b.slice_sim', 'Bcder.Props.C07b.advance_sim', 'Bcder.Props.C07b.advance_past', 'Bcder.Props.C07b.calls_sim', 'Bcder.Props.C07b.oss_is_conforming_source', 'source_independence_closed', 'capture_one_independent', 'octet_string_independent', 'stingy_conforming', 'chunked_conforming', 'generic_read_independent', 'skip_all_independent', 'take_int_independent']
+THEOREMS = ['source_independence', 'Bcder.Props.C07b.ossPol_conforming', 'Bcder.Props.C07b.request_exact', 'Bcder.Props.C07b.request_sim', 'Bcder.Props.C07b.slice_sim', 'Bcder.Props.C07b.advance_sim', 'Bcder.Props.C07b.advance_past', 'Bcder.Props.C07b.calls_sim', 'Bcder.Props.C07b.oss_is_conforming_source', 'Bcder.Props.C07b.oss_prim_is_conforming_source', 'source_independence_closed', 'capture_one_independent', 'octet_string_independent', 'stingy_conforming', 'chunked_conforming', 'generic_read_independent', 'skip_all_independent', 'take_int_independent']
 EXTRA_MODULES = ['C07b']
 RULE = ("every generated (mode, input, script) case — generic reads, optional/tag-selective reads, skips, captures, typed readers for all "
         "value types, on well-formed and mutated inputs — is executed over SliceSource, BytesSource (by &mut and by value), Constructed::decode, "
